@@ -161,7 +161,25 @@ def mutations(req, rng, n):
     return out
 
 
-EXTREMES = [0, 1, 2 ** 15, 2 ** 16 - 1, 2 ** 31 - 1, 2 ** 31, 2 ** 32 - 1, 2 ** 32, 2 ** 63 - 1, 2 ** 63, 2 ** 64 - 5000, 2 ** 64 - 300, 2 ** 64 - 2, 2 ** 64 - 1, 2 ** 64, 2 ** 64 + 1, 2 ** 127, 2 ** 128, 10 ** 30]
+EXTREMES = [0, 1, 2 ** 15, 2 ** 16 - 1, 2 ** 31 - 1, 2 ** 31, 2 ** 32 - 1, 2 ** 32, 2 ** 63 - 1, 2 ** 63, 2 ** 64 - 5000, 2 ** 64 - 300, 2 ** 64 - 2, 2 ** 64 - 1, 2 ** 64, 2 ** 64 + 1,
+            2 ** 127 - 1, 2 ** 127, 2 ** 128 - 5000, 2 ** 128 - 2, 2 ** 128 - 1, 2 ** 128, 10 ** 30, 2 ** 53, 2 ** 53 + 1]
+
+
+def numeric_target_extremes(req):
+    """deterministic block: every run of digits in the request target (query parameters of the upload / form routes, numbered
+    paths) replaced by every extreme value"""
+    import re
+    out = []
+    t = req.target if isinstance(req.target, str) else None
+    if t is None:
+        return out
+    texts = [str(v) for v in EXTREMES] + ["-1", "-0", "+1", "01", "1.0", "1e3", "0x10", "", "a"]
+    for m in list(re.finditer(r"[0-9]+", t))[:6]:
+        for tx in texts:
+            r = req.copy()
+            r.target = t[:m.start()] + tx + t[m.end():]
+            out.append(("numeric-extreme:target", "numeric", r.bytes()))
+    return out
 
 
 def numeric_extremes(req):
